@@ -826,6 +826,20 @@ pub fn pbkw_unwrap(ver: Ver, kind: &str, pw: &[u8], text: &str) -> MR<Vec<u8>> {
 // PASERK PKE (seal)
 
 /// v2/v4: seal `pdk` to Ed25519 public key `pk` with X25519 ephemeral secret `esk` (32 bytes, clamped by X25519).
+/// As `pke_seal_25519`, with the ephemeral public key written in its other X25519 encoding: bit 255
+/// set.  RFC 7748 masks that bit, so the shared secret is the same; every hash and the tag are
+/// computed over the 32 bytes as they appear in the blob.
+pub fn pke_seal_25519_high_bit(ver: Ver, pk: &[u8], esk: &[u8; 32], pdk: &[u8; 32]) -> MR<String> {
+    let h = format!("{}.seal.", ver.k());
+    let edpk = crypto_sign::PublicKey::from_bytes(pk).map_err(|e| format!("{e}"))?;
+    let xpk = crypto_sign::ed25519_pk_to_curve25519(&edpk).map_err(|e| format!("{e}"))?;
+    let mut epk = crypto_scalarmult::curve25519::scalarmult_base(esk).map_err(|e| format!("{e}"))?;
+    let xk = crypto_scalarmult::curve25519::scalarmult(esk, &xpk).map_err(|e| format!("{e}"))?;
+    epk[31] |= 0x80;
+    let blob = pke_25519_body(&h, &xk, &epk, &xpk, pdk);
+    Ok(format!("{h}{}", b64_encode(&blob)))
+}
+
 pub fn pke_seal_25519(ver: Ver, pk: &[u8], esk: &[u8; 32], pdk: &[u8; 32]) -> MR<String> {
     let h = format!("{}.seal.", ver.k());
     let edpk = crypto_sign::PublicKey::from_bytes(pk).map_err(|e| format!("{e}"))?;
